@@ -19,6 +19,7 @@ ASSUMPTIONS = ["not decided: panics inside external crates; allocation failure; 
                "reviewed entries (sa/spec/reviewed.py) are trusted reasons written by hand, each for one construct shape; sites that depend "
                "only on the environment (kernel packet metadata, clock, sockets) are outside the quantifier (byte strings) and listed as `env`",
                "the engine is incomplete: a new arithmetic/indexing construct that is safe for a non-local reason is reported until reviewed"]
+EXPLANATION += '; also: side rules S1-S4 carry the premises of reviewed reasons that are about other code (S4: oneshot receivers and every future above them are awaited without a deadline); String char-boundary sites'
 EXTRA_CONFIGS = ["dns", "dhcp", "radv"]
 
 ENTRY_SUFFIXES = ("Service::run", "Service::run::{closure#0}")
